@@ -869,6 +869,18 @@ def _map_get(it, st, args, ctx):
     return mk_option(found, Ptr(cell))
 
 
+@summary(r'^<(std::collections::)?(HashMap|BTreeMap)<.*> as (std::ops::)?Index<&.*>>::index$')
+def _map_index(it, st, args, ctx):
+    """map[&key]: a reference to the value; panics when the key is absent"""
+    from .summaries import _panic_fork
+    mm = map_of(it, st, args[0])
+    key = deref(it, st, args[1])
+    found, val = map_lookup(mm, key)
+    if val is None:
+        return Panic('key not found in map index', ctx.fn.name if ctx.fn else '')
+    return _panic_fork(it, st, found, Ptr(st.alloc(val)), 'key not found in map index', ctx)
+
+
 @summary(r'^' + _MAP_T + r'::(contains_key|contains)::<')
 def _map_contains(it, st, args, ctx):
     mm = map_of(it, st, args[0])
